@@ -4,7 +4,7 @@
    get_jacobian, r2d/d2r.  A changed sign, index, operand or constant in one of those methods
    changes Gen.v and these lemmas no longer hold.  Control flow (r > 0, latitude > 0, the
    longitude fold, the distortion switch) stays hand-modelled. *)
-From Coq Require Import Reals List Lra.
+From Coq Require Import Reals List Bool Lra.
 From EsVerif.C10 Require Import Gen Model.
 Import ListNotations.
 Local Open Scope R_scope.
@@ -58,3 +58,30 @@ Lemma jacobian_is_source : forall c p0 m0 zp zm step,
   src_jacobian wrap_ra_diff step (fst c) (snd c) (fst p0) (snd p0) (fst m0) (snd m0)
                (fst zp) (snd zp) (fst zm) (snd zm).
 Proof. intros. reflexivity. Qed.
+
+(* control flow of image2sky and of sky2image(find=False): which of CD matrix and distortion is
+   applied first per projection, and what happens when the distortion is switched off *)
+Definition is_sip (p : proj) : bool := match p with PSip => true | _ => false end.
+
+Lemma pix2inter_is_source : forall w x y distort,
+  pix2inter w x y distort =
+  src_pix2inter (apply_cd (w_hdr w))
+                (distort_with (d_name (w_dist w)) (d_a (w_dist w)) (d_b (w_dist w)))
+                (distort && has_dist w) (is_sip (h_proj (w_hdr w))) x y
+                (h_crpix1 (w_hdr w)) (h_crpix2 (w_hdr w)).
+Proof.
+  intros. unfold pix2inter, src_pix2inter, is_sip.
+  destruct (h_proj (w_hdr w)); destruct (distort && has_dist w); cbn [fst snd];
+    try reflexivity; rewrite <- surjective_pairing; reflexivity.
+Qed.
+
+Lemma sky2image_direct_is_source : forall fit w s lon lat distort,
+  snd (sky2image_direct fit w s lon lat distort) =
+  let uv := sph2image w lon lat in
+  src_inter2pix (apply_cdinv (w_hdr w)) (fun a b => snd (distort_inverse fit w s a b))
+                (distort && has_dist w) (is_sip (h_proj (w_hdr w))) (fst uv) (snd uv)
+                (h_crpix1 (w_hdr w)) (h_crpix2 (w_hdr w)).
+Proof.
+  intros. unfold sky2image_direct, src_inter2pix, is_sip. cbv zeta.
+  destruct (h_proj (w_hdr w)); destruct (distort && has_dist w); cbn [fst snd]; reflexivity.
+Qed.
